@@ -299,6 +299,155 @@ theorem checkDescData_mismatch {d : Desc} {data : Bytes}
     · exact absurd this.2.2.1 h
 
 
+/-! ### `pushManifest` in closed form -/
+
+/-- The repository after a manifest has been stored (and tagged when `t ≠ []`). -/
+def storeManifest (rp : Repo) (t : Bytes) (desc : Desc) (b : Blob) : Repo :=
+  { rp with
+    manifests := ainsert desc.digest b rp.manifests,
+    tags := if t ≠ [] then ainsert t desc rp.tags else rp.tags }
+
+/-- The reference list a decoded manifest is checked against. -/
+def decRefs : Decoded → Option (List RefInfo)
+  | .opaque => some []
+  | .malformed => none
+  | .refs rs => some rs
+
+/-- The re-typing refusal of immutable-tags mode: a manifest already stored under
+`dig` with another media type and reachable from a tag. -/
+def retyped (imm : Bool) (rp : Repo) (dig mt : Bytes) : Bool :=
+  imm && (match alookup dig rp.manifests with
+    | some b => b.mediaType != mt && taggedRefersTo rp dig
+    | none => false)
+
+/-- The three possible outcomes of `pushManifest`: an error (state unchanged up
+to the creation of the empty repository), the idempotent re-push of the same
+content under an immutable tag, or a store. -/
+theorem pushManifest_spec (s : State) (r t data mt : Bytes) (dec : Decoded) :
+    (∃ e s1, step H s (.pushManifest r t data mt dec) = (s1, .err e) ∧
+        (s1 = s ∨ ∃ rp, makeRepo s r = some (s1, rp)))
+    ∨ (∃ rp cur, t ≠ [] ∧ s.immutableTags = true ∧ Ref.isRepo r = true ∧ Ref.isTag t = true ∧
+        getRepo s r = some rp ∧ alookup t rp.tags = some cur ∧
+        cur.digest = H data ∧ cur.mediaType = mt ∧
+        step H s (.pushManifest r t data mt dec) = (s, .okDesc cur))
+    ∨ (∃ s1 rp rs subj, makeRepo s r = some (s1, rp) ∧ (t = [] ∨ Ref.isTag t = true) ∧
+        (t ≠ [] → s.immutableTags = true → alookup t rp.tags = none) ∧
+        retyped s.immutableTags rp (H data) mt = false ∧
+        checkDescData H ⟨mt, H data, data.length⟩ data = none ∧
+        decRefs dec = some rs ∧ checkRefs rp rs [] = some subj ∧
+        step H s (.pushManifest r t data mt dec) =
+          (putRepo s1 r (storeManifest rp t ⟨mt, H data, data.length⟩ ⟨mt, data, subj, rs⟩),
+           .okDesc ⟨mt, H data, data.length⟩)) := by
+  simp only [step]
+  split
+  · exact Or.inl ⟨_, _, rfl, Or.inl rfl⟩
+  · rename_i s1 rp hm
+    have himm := makeRepo_immutableTags hm
+    split
+    · exact Or.inl ⟨_, _, rfl, Or.inr ⟨rp, hm⟩⟩
+    · rename_i htag
+      have htag' : t = [] ∨ Ref.isTag t = true := by
+        by_cases ht : t = []
+        · exact Or.inl ht
+        · right; cases hit : Ref.isTag t
+          · exact absurd ⟨ht, by simp [hit]⟩ htag
+          · rfl
+      split
+      · rename_i cur hex
+        have hex' : t ≠ [] ∧ s1.immutableTags = true ∧ alookup t rp.tags = some cur := by
+          by_cases hc : t ≠ [] ∧ s1.immutableTags = true
+          · rw [if_pos hc] at hex; exact ⟨hc.1, hc.2, hex⟩
+          · rw [if_neg hc] at hex; cases hex
+        obtain ⟨ht, hi, hl⟩ := hex'
+        have hs1 : s1 = s ∧ getRepo s r = some rp := by
+          rcases (makeRepo_spec hm).2.2 with h | ⟨_, h2, _⟩
+          · exact h
+          · subst h2; simp [emptyRepo] at hl
+        obtain ⟨hs1, hg⟩ := hs1
+        subst hs1
+        split
+        · rename_i hd
+          split
+          · exact Or.inl ⟨_, _, rfl, Or.inl rfl⟩
+          · rename_i hmt
+            refine Or.inr (Or.inl ⟨rp, cur, ht, hi, (makeRepo_spec hm).1, ?_, hg, hl, hd, Classical.not_not.mp hmt, rfl⟩)
+            rcases htag' with h | h
+            · exact absurd h ht
+            · exact h
+        · exact Or.inl ⟨_, _, rfl, Or.inl rfl⟩
+      · rename_i hex
+        have hex' : t ≠ [] → s.immutableTags = true → alookup t rp.tags = none := by
+          intro ht hi
+          rw [if_pos ⟨ht, himm.trans hi⟩] at hex; exact hex
+        generalize hc : (s1.immutableTags && _) = c
+        have hc' : retyped s1.immutableTags rp (H data) mt = c := by rw [← hc]; rfl
+        rw [himm] at hc'
+        cases c
+        case true => exact Or.inl ⟨_, _, rfl, Or.inr ⟨rp, hm⟩⟩
+        have hre' : retyped s.immutableTags rp (H data) mt = false := hc'
+        simp only [Bool.false_eq_true, if_false]
+        split
+        · exact Or.inl ⟨_, _, rfl, Or.inr ⟨rp, hm⟩⟩
+        · rename_i hcd
+          have hcd' : checkDescData H ⟨mt, H data, data.length⟩ data = none := by
+            cases hh : checkDescData H ⟨mt, H data, data.length⟩ data with
+            | none => rfl
+            | some e => rw [hh] at hcd; simp at hcd
+          split
+          · exact Or.inl ⟨_, _, rfl, Or.inr ⟨rp, hm⟩⟩
+          · rename_i rs hrs
+            split
+            · exact Or.inl ⟨_, _, rfl, Or.inr ⟨rp, hm⟩⟩
+            · rename_i subj hsubj
+              refine Or.inr (Or.inr ⟨s1, rp, rs, subj, hm, htag', hex', hre', hcd', ?_, hsubj, ?_⟩)
+              · cases dec <;> simp [decRefs] at hrs ⊢ <;> exact hrs
+              · unfold storeManifest
+                by_cases ht : t = [] <;> simp [ht]
+
+
+theorem makeRepo_rp {s s1 : State} {r : Bytes} {rp : Repo} (hm : makeRepo s r = some (s1, rp)) :
+    rp = (getRepo s r).getD emptyRepo := by
+  rcases (makeRepo_spec hm).2.2 with ⟨_, h2⟩ | ⟨h0, h2, _⟩
+  · simp [h2]
+  · simp [h0, h2]
+
+@[simp] theorem storeManifest_blobs (rp t desc b) : (storeManifest rp t desc b).blobs = rp.blobs := rfl
+@[simp] theorem storeManifest_uploads (rp t desc b) : (storeManifest rp t desc b).uploads = rp.uploads := rfl
+@[simp] theorem storeManifest_manifests (rp t desc b) :
+    (storeManifest rp t desc b).manifests = ainsert desc.digest b rp.manifests := rfl
+@[simp] theorem storeManifest_tags (rp t desc b) :
+    (storeManifest rp t desc b).tags = if t ≠ [] then ainsert t desc rp.tags else rp.tags := rfl
+
+
+
+theorem refersTo_of_mem (rp : Repo) (target : Bytes) (fuel : Nat) (l : List RefInfo)
+    (h : ∃ x ∈ l, x.desc.digest = target) : refersTo rp target (fuel + 1) l = true := by
+  induction l with
+  | nil => obtain ⟨x, hx, _⟩ := h; cases hx
+  | cons y ys ih =>
+    rw [refersTo]
+    by_cases hy : y.desc.digest = target
+    · simp [hy]
+    · obtain ⟨x, hx, hxd⟩ := h
+      rcases List.mem_cons.mp hx with rfl | hx
+      · exact absurd hxd hy
+      · simp [hy, ih ⟨x, hx, hxd⟩]
+
+/-- A digest some tag points at directly is "referred to by a tag". -/
+theorem taggedRefersTo_of_tag {rp : Repo} {t : Bytes} {td : Desc} (h : alookup t rp.tags = some td) :
+    taggedRefersTo rp td.digest = true := by
+  unfold taggedRefersTo
+  apply refersTo_of_mem
+  exact ⟨⟨1, td⟩, List.mem_map.mpr ⟨(t, td), mem_of_alookup h, rfl⟩, rfl⟩
+
+
+theorem retyped_of_tag {imm : Bool} {rp : Repo} {t' dig mt : Bytes} {td : Desc} {b : Blob}
+    (himm : imm = true) (ht : alookup t' rp.tags = some td) (hd : td.digest = dig)
+    (hb : alookup dig rp.manifests = some b) (hmt : b.mediaType ≠ mt) :
+    retyped imm rp dig mt = true := by
+  subst hd
+  simp [retyped, himm, hb, hmt, taggedRefersTo_of_tag ht]
+
 /-! ### The digest invariant -/
 
 /-- Every entry of a content map is stored under the hash of its bytes. -/
@@ -441,27 +590,18 @@ theorem inv_step (s : State) (op : Op) (hs : Inv H s) : Inv H (step H s op).1 :=
         · rename_i rto hgt
           have hrto := hs1 toR rto hgt
           exact inv_putRepo H hs1 ⟨mapOK_ainsert H hbd hrto.1, hrto.2⟩
-  | pushManifest r t data mt dec =>
-    simp only [step]
-    split
-    · exact hs
-    · rename_i s1 rp hm
+  | pushManifest r0 t data mt dec =>
+    rcases pushManifest_spec H s r0 t data mt dec with
+      ⟨e, s1, hst, hs1⟩ | ⟨rp, cur, _, _, _, _, _, _, _, _, hst⟩ |
+      ⟨s1, rp, rs, subj, hm, _, _, _, _, _, _, hst⟩
+    · rw [hst]
+      rcases hs1 with rfl | ⟨rp, hm⟩
+      · exact hs
+      · exact (inv_makeRepo H hs hm).1
+    · rw [hst]; exact hs
+    · rw [hst]
       have ⟨hs1, hrp⟩ := inv_makeRepo H hs hm
-      split
-      · exact hs1
-      · split
-        · repeat' split
-          all_goals exact hs1
-        · split
-          · exact hs1
-          · split
-            · exact hs1
-            · split
-              · exact hs1
-              · apply inv_putRepo H hs1
-                split
-                · exact ⟨hrp.1, mapOK_ainsert H rfl hrp.2⟩
-                · exact ⟨hrp.1, mapOK_ainsert H rfl hrp.2⟩
+      exact inv_putRepo H hs1 ⟨hrp.1, mapOK_ainsert H rfl hrp.2⟩
   | deleteBlob r d =>
     simp only [step]
     split
@@ -624,27 +764,22 @@ theorem ku_step (s : State) (op : Op) (hs : KeysUnique s) : KeysUnique (step H s
         · rename_i rto hgt
           have hrto := ku_getRepo hs1 hgt
           exact ku_putRepo hs1 ⟨hrto.1, hrto.2.1, KU_ainsert _ _ hrto.2.2.1, hrto.2.2.2⟩
-  | pushManifest r t data mt dec =>
-    simp only [step]
-    split
-    · exact hs
-    · rename_i s1 rp hm
+  | pushManifest r0 t data mt dec =>
+    rcases pushManifest_spec H s r0 t data mt dec with
+      ⟨e, s1, hst, hs1⟩ | ⟨rp, cur, _, _, _, _, _, _, _, _, hst⟩ |
+      ⟨s1, rp, rs, subj, hm, _, _, _, _, _, _, hst⟩
+    · rw [hst]
+      rcases hs1 with rfl | ⟨rp, hm⟩
+      · exact hs
+      · exact (ku_makeRepo hs hm).1
+    · rw [hst]; exact hs
+    · rw [hst]
       have ⟨hs1, hrp⟩ := ku_makeRepo hs hm
+      refine ku_putRepo hs1 ⟨?_, KU_ainsert _ _ hrp.2.1, hrp.2.2.1, hrp.2.2.2⟩
+      show KU (if t ≠ [] then _ else _)
       split
-      · exact hs1
-      · split
-        · repeat' split
-          all_goals exact hs1
-        · split
-          · exact hs1
-          · split
-            · exact hs1
-            · split
-              · exact hs1
-              · apply ku_putRepo hs1
-                split
-                · exact ⟨KU_ainsert _ _ hrp.1, KU_ainsert _ _ hrp.2.1, hrp.2.2.1, hrp.2.2.2⟩
-                · exact ⟨hrp.1, KU_ainsert _ _ hrp.2.1, hrp.2.2.1, hrp.2.2.2⟩
+      · exact KU_ainsert _ _ hrp.1
+      · exact hrp.1
   | deleteBlob r d =>
     simp only [step]
     split
@@ -1118,25 +1253,16 @@ theorem blob_frame (s : State) (op : Op) (r d : Bytes) :
             simp only [look_putRepo, hr, if_false]
             exact hl1 r d
   | pushManifest r0 t data mt dec =>
-    simp only [step]
-    split
-    · exact Or.inl rfl
-    · rename_i s1 rp hm
-      have ⟨hl1, hl2⟩ := look_makeRepo (·.blobs) rfl hm
-      split
-      · exact Or.inl (hl1 r d)
-      · split
-        · repeat' split
-          all_goals exact Or.inl (hl1 r d)
-        · split
-          · exact Or.inl (hl1 r d)
-          · split
-            · exact Or.inl (hl1 r d)
-            · split
-              · exact Or.inl (hl1 r d)
-              · left
-                apply look_putRepo_make (·.blobs) rfl hm
-                split <;> rfl
+    rcases pushManifest_spec H s r0 t data mt dec with
+      ⟨e, s1, hst, hs1⟩ | ⟨rp, cur, _, _, _, _, _, _, _, _, hst⟩ |
+      ⟨s1, rp, rs, subj, hm, _, _, _, _, _, _, hst⟩
+    · rw [hst]
+      rcases hs1 with rfl | ⟨rp, hm⟩
+      · exact Or.inl rfl
+      · exact Or.inl ((look_makeRepo (·.blobs) rfl hm).1 r d)
+    · rw [hst]; exact Or.inl rfl
+    · rw [hst]
+      exact Or.inl (look_putRepo_make (·.blobs) rfl hm (by rfl) r d)
   | deleteBlob r0 d0 =>
     simp only [step]
     split
@@ -1182,109 +1308,6 @@ theorem blob_frame (s : State) (op : Op) (r d : Bytes) :
   | referrers r0 d0 => simp only [step]; split <;> exact Or.inl rfl
 
 
-/-! ### `pushManifest` in closed form -/
-
-/-- The repository after a manifest has been stored (and tagged when `t ≠ []`). -/
-def storeManifest (rp : Repo) (t : Bytes) (desc : Desc) (b : Blob) : Repo :=
-  { rp with
-    manifests := ainsert desc.digest b rp.manifests,
-    tags := if t ≠ [] then ainsert t desc rp.tags else rp.tags }
-
-/-- The reference list a decoded manifest is checked against. -/
-def decRefs : Decoded → Option (List RefInfo)
-  | .opaque => some []
-  | .malformed => none
-  | .refs rs => some rs
-
-/-- The three possible outcomes of `pushManifest`: an error (state unchanged up
-to the creation of the empty repository), the idempotent re-push of the same
-content under an immutable tag, or a store. -/
-theorem pushManifest_spec (s : State) (r t data mt : Bytes) (dec : Decoded) :
-    (∃ e s1, step H s (.pushManifest r t data mt dec) = (s1, .err e) ∧
-        (s1 = s ∨ ∃ rp, makeRepo s r = some (s1, rp)))
-    ∨ (∃ rp cur, t ≠ [] ∧ s.immutableTags = true ∧ Ref.isRepo r = true ∧ Ref.isTag t = true ∧
-        getRepo s r = some rp ∧ alookup t rp.tags = some cur ∧
-        cur.digest = H data ∧ cur.mediaType = mt ∧
-        step H s (.pushManifest r t data mt dec) = (s, .okDesc cur))
-    ∨ (∃ s1 rp rs subj, makeRepo s r = some (s1, rp) ∧ (t = [] ∨ Ref.isTag t = true) ∧
-        (t ≠ [] → s.immutableTags = true → alookup t rp.tags = none) ∧
-        checkDescData H ⟨mt, H data, data.length⟩ data = none ∧
-        decRefs dec = some rs ∧ checkRefs rp rs [] = some subj ∧
-        step H s (.pushManifest r t data mt dec) =
-          (putRepo s1 r (storeManifest rp t ⟨mt, H data, data.length⟩ ⟨mt, data, subj, rs⟩),
-           .okDesc ⟨mt, H data, data.length⟩)) := by
-  simp only [step]
-  split
-  · exact Or.inl ⟨_, _, rfl, Or.inl rfl⟩
-  · rename_i s1 rp hm
-    have himm := makeRepo_immutableTags hm
-    split
-    · exact Or.inl ⟨_, _, rfl, Or.inr ⟨rp, hm⟩⟩
-    · rename_i htag
-      have htag' : t = [] ∨ Ref.isTag t = true := by
-        by_cases ht : t = []
-        · exact Or.inl ht
-        · right; cases hit : Ref.isTag t
-          · exact absurd ⟨ht, by simp [hit]⟩ htag
-          · rfl
-      split
-      · rename_i cur hex
-        have hex' : t ≠ [] ∧ s1.immutableTags = true ∧ alookup t rp.tags = some cur := by
-          by_cases hc : t ≠ [] ∧ s1.immutableTags = true
-          · rw [if_pos hc] at hex; exact ⟨hc.1, hc.2, hex⟩
-          · rw [if_neg hc] at hex; cases hex
-        obtain ⟨ht, hi, hl⟩ := hex'
-        have hs1 : s1 = s ∧ getRepo s r = some rp := by
-          rcases (makeRepo_spec hm).2.2 with h | ⟨_, h2, _⟩
-          · exact h
-          · subst h2; simp [emptyRepo] at hl
-        obtain ⟨hs1, hg⟩ := hs1
-        subst hs1
-        split
-        · rename_i hd
-          split
-          · exact Or.inl ⟨_, _, rfl, Or.inl rfl⟩
-          · rename_i hmt
-            refine Or.inr (Or.inl ⟨rp, cur, ht, hi, (makeRepo_spec hm).1, ?_, hg, hl, hd, Classical.not_not.mp hmt, rfl⟩)
-            rcases htag' with h | h
-            · exact absurd h ht
-            · exact h
-        · exact Or.inl ⟨_, _, rfl, Or.inl rfl⟩
-      · rename_i hex
-        have hex' : t ≠ [] → s.immutableTags = true → alookup t rp.tags = none := by
-          intro ht hi
-          rw [if_pos ⟨ht, himm.trans hi⟩] at hex; exact hex
-        split
-        · exact Or.inl ⟨_, _, rfl, Or.inr ⟨rp, hm⟩⟩
-        · rename_i hcd
-          have hcd' : checkDescData H ⟨mt, H data, data.length⟩ data = none := by
-            cases hh : checkDescData H ⟨mt, H data, data.length⟩ data with
-            | none => rfl
-            | some e => rw [hh] at hcd; simp at hcd
-          split
-          · exact Or.inl ⟨_, _, rfl, Or.inr ⟨rp, hm⟩⟩
-          · rename_i rs hrs
-            split
-            · exact Or.inl ⟨_, _, rfl, Or.inr ⟨rp, hm⟩⟩
-            · rename_i subj hsubj
-              refine Or.inr (Or.inr ⟨s1, rp, rs, subj, hm, htag', hex', hcd', ?_, hsubj, ?_⟩)
-              · cases dec <;> simp [decRefs] at hrs ⊢ <;> exact hrs
-              · unfold storeManifest
-                by_cases ht : t = [] <;> simp [ht]
-
-
-theorem makeRepo_rp {s s1 : State} {r : Bytes} {rp : Repo} (hm : makeRepo s r = some (s1, rp)) :
-    rp = (getRepo s r).getD emptyRepo := by
-  rcases (makeRepo_spec hm).2.2 with ⟨_, h2⟩ | ⟨h0, h2, _⟩
-  · simp [h2]
-  · simp [h0, h2]
-
-@[simp] theorem storeManifest_blobs (rp t desc b) : (storeManifest rp t desc b).blobs = rp.blobs := rfl
-@[simp] theorem storeManifest_uploads (rp t desc b) : (storeManifest rp t desc b).uploads = rp.uploads := rfl
-@[simp] theorem storeManifest_manifests (rp t desc b) :
-    (storeManifest rp t desc b).manifests = ainsert desc.digest b rp.manifests := rfl
-@[simp] theorem storeManifest_tags (rp t desc b) :
-    (storeManifest rp t desc b).tags = if t ≠ [] then ainsert t desc rp.tags else rp.tags := rfl
 
 
 theorem manifest_frame (s : State) (op : Op) (r d : Bytes) :
@@ -1374,7 +1397,7 @@ theorem manifest_frame (s : State) (op : Op) (r d : Bytes) :
   | pushManifest r0 t data mt dec =>
     rcases pushManifest_spec H s r0 t data mt dec with
       ⟨e, s1, hst, hs1⟩ | ⟨rp, cur, _, _, _, _, _, _, _, _, hst⟩ |
-      ⟨s1, rp, rs, subj, hm, _, _, _, hdec, hchk, hst⟩
+      ⟨s1, rp, rs, subj, hm, _, _, _, _, hdec, hchk, hst⟩
     · rw [hst]
       rcases hs1 with hs1 | ⟨rp, hm⟩
       · subst hs1; exact Or.inl rfl
@@ -1525,7 +1548,7 @@ theorem tag_frame (s : State) (op : Op) (r d : Bytes) :
   | pushManifest r0 t data mt dec =>
     rcases pushManifest_spec H s r0 t data mt dec with
       ⟨e, s1, hst, hs1⟩ | ⟨rp, cur, _, _, _, _, _, _, _, _, hst⟩ |
-      ⟨s1, rp, rs, subj, hm, _, _, _, hdec, hchk, hst⟩
+      ⟨s1, rp, rs, subj, hm, _, _, _, _, hdec, hchk, hst⟩
     · rw [hst]
       rcases hs1 with hs1 | ⟨rp, hm⟩
       · subst hs1; exact Or.inl rfl
@@ -1787,7 +1810,7 @@ theorem tag_resolves_last_push {s s1 : State} {r t data mt : Bytes} {dec : Decod
     step H s1 (.resolveTag r t) = (s1, .okDesc dd) ∧ dd.digest = H data := by
   rcases pushManifest_spec H s r t data mt dec with
     ⟨e, s2, hst, _⟩ | ⟨rp, cur, _, _, _, _, hg, hl, hd, _, hst⟩ |
-    ⟨s2, rp, rs, subj, hm, _, _, _, _, _, hst⟩
+    ⟨s2, rp, rs, subj, hm, _, _, _, _, _, _, hst⟩
   · rw [hst] at h; cases h
   · rw [hst] at h; cases h
     exact ⟨step_resolveTag_of H hg hl, hd⟩
@@ -1801,7 +1824,7 @@ theorem tag_gets_last_push {s s1 : State} {r t data mt : Bytes} {dec : Decoded} 
     step H s1 (.getTag r t) = (s1, .okRead ⟨mt, H data, data.length⟩ data) := by
   rcases pushManifest_spec H s r t data mt dec with
     ⟨e, s2, hst, _⟩ | ⟨rp, cur, _, hi, _, _, hg, hl, hd, _, hst⟩ |
-    ⟨s2, rp, rs, subj, hm, _, _, _, _, _, hst⟩
+    ⟨s2, rp, rs, subj, hm, _, _, _, _, _, _, hst⟩
   · rw [hst] at h; cases h
   · rcases hfresh with hf | hf
     · rw [hi] at hf; cases hf
@@ -1818,19 +1841,20 @@ theorem manifest_accepted_only_if {s s1 : State} {r t data mt : Bytes} {dec : De
     ((s1 = s ∧ t ≠ [] ∧ s.immutableTags = true ∧
         ∃ rp, getRepo s r = some rp ∧ alookup t rp.tags = some dd ∧ dd.digest = H data ∧ dd.mediaType = mt)
      ∨ (dd = ⟨mt, H data, data.length⟩ ∧ Ref.isDigest (H data) = true ∧ mt ≠ [] ∧ dec ≠ .malformed ∧
+        retyped s.immutableTags ((getRepo s r).getD emptyRepo) (H data) mt = false ∧
         ∃ rs, decRefs dec = some rs ∧
           ∀ ref ∈ rs, checkDescNil ref.desc = true ∧
             (ref.kind = 0 → (alookup ref.desc.digest ((getRepo s r).getD emptyRepo).blobs).isSome = true) ∧
             (ref.kind = 1 → (alookup ref.desc.digest ((getRepo s r).getD emptyRepo).manifests).isSome = true))) := by
   rcases pushManifest_spec H s r t data mt dec with
     ⟨e, s2, hst, _⟩ | ⟨rp, cur, ht, hi, hrepo, htag, hg, hl, hd, hmt, hst⟩ |
-    ⟨s2, rp, rs, subj, hm, htag, _, hcd, hdec, hchk, hst⟩
+    ⟨s2, rp, rs, subj, hm, htag, _, hre, hcd, hdec, hchk, hst⟩
   · rw [hst] at h; cases h
   · rw [hst] at h; cases h
     exact ⟨hrepo, Or.inr htag, Or.inl ⟨rfl, ht, hi, rp, hg, hl, hd, hmt⟩⟩
   · rw [hst] at h; cases h
     have hc := checkDescData_none H hcd
-    refine ⟨(makeRepo_spec hm).1, htag, Or.inr ⟨rfl, hc.1, hc.2.2.2, ?_, rs, hdec, ?_⟩⟩
+    refine ⟨(makeRepo_spec hm).1, htag, Or.inr ⟨rfl, hc.1, hc.2.2.2, ?_, by rw [← makeRepo_rp hm]; exact hre, rs, hdec, ?_⟩⟩
     · intro hmal; subst hmal; simp [decRefs] at hdec
     · rw [← makeRepo_rp hm]; exact checkRefs_some hchk
 
